@@ -159,6 +159,8 @@ def im4(ctx: Ctx):
                 for t in walk(val) if (val and isinstance(val[0], str)) else []:
                     if t[0] == "ext" and ((t[1], t[2]) in IMPURE or (t[1], None) in IMPURE):
                         problems.append(f"reads {t[1]}.{t[2]}")
+                    if t[0] == "attr" and t[1][0] == "ext" and t[1][2] is None and (t[1][1], t[2]) in IMPURE:
+                        problems.append(f"reads {t[1][1]}.{t[2]}")
                     if t[0] == "builtin" and ("builtins", t[1]) in IMPURE:
                         problems.append(f"calls {t[1]}()")
                     if t[0] == "global" and (t[1], t[2]) in rebound and not _is_memo_callable(model, t):
